@@ -671,11 +671,40 @@ func (fg *FuncGen) structFieldItems(t types.Type, field, ref string) []frameItem
 				}
 				return fg.allFieldItems(ft, r)
 			}
-			return []frameItem{{comp: fg.fieldComp(t, i), ref: ref}}
+			return append([]frameItem{{comp: fg.fieldComp(t, i), ref: ref}}, fg.ghostItems(t, field, ref)...)
+		}
+	}
+	if ct := fg.structContract(t); ct != nil {
+		for _, gf := range ct.Ghosts {
+			if gf.Name == field {
+				return []frameItem{{comp: fg.ghostComp(t, gf, ct), ref: ref}}
+			}
 		}
 	}
 	fg.g.bindErrors = append(fg.g.bindErrors, fmt.Sprintf("modifies: no field %s in %s", field, t))
 	return nil
+}
+
+// ghostItems: the ghost fields of struct t that are recomputed when `field` is stored
+// ("" = any field) travel with that field in every frame.
+func (fg *FuncGen) ghostItems(t types.Type, field, ref string) []frameItem {
+	ct := fg.structContract(t)
+	if ct == nil {
+		return nil
+	}
+	var out []frameItem
+	for _, gf := range ct.Ghosts {
+		hit := field == ""
+		for _, on := range gf.On {
+			if on == field {
+				hit = true
+			}
+		}
+		if hit {
+			out = append(out, frameItem{comp: fg.ghostComp(t, gf, ct), ref: ref})
+		}
+	}
+	return out
 }
 
 func (fg *FuncGen) allFieldItems(t types.Type, ref string) []frameItem {
@@ -694,6 +723,7 @@ func (fg *FuncGen) allFieldItems(t types.Type, ref string) []frameItem {
 				out = append(out, frameItem{comp: fg.fieldComp(t, i), ref: ref})
 			}
 		}
+		out = append(out, fg.ghostItems(t, "", ref)...)
 	case *types.Array:
 		out = append(out, frameItem{comp: fg.elemComp(u.Elem()), ref: ref})
 	default:
@@ -800,6 +830,9 @@ func (fg *FuncGen) descItems(ms *ModSet) []frameItem {
 		switch d.Kind {
 		case "field":
 			out = append(out, frameItem{comp: fg.fieldComp(d.T, d.Field)})
+			if u, ok := d.T.Underlying().(*types.Struct); ok && d.Field < u.NumFields() {
+				out = append(out, fg.ghostItems(d.T, u.Field(d.Field).Name(), "")...)
+			}
 		case "elem":
 			out = append(out, frameItem{comp: fg.elemComp(d.T)})
 		case "box":
@@ -1700,7 +1733,10 @@ func (fg *FuncGen) structContract(st types.Type) *Contract {
 }
 
 func (fg *FuncGen) ghostComp(st types.Type, gf *GhostField, ct *Contract) *Comp {
-	t := fg.g.resolveType(gf.Type, fg.g.pkgByPath(ct.Pkg))
+	var t types.Type = ghostInt
+	if gf.Type != "mathint" {
+		t = fg.g.resolveType(gf.Type, fg.g.pkgByPath(ct.Pkg))
+	}
 	name := fmt.Sprintf("H_%s.$%s", shortType(st), gf.Name)
 	c := fg.comp(name, fmt.Sprintf("(Array Int %s)", fg.enc.sortOf(t)), "field")
 	c.Typ = t
